@@ -517,6 +517,10 @@ def ob_install_world():
             if p:
                 d.symlinks.append(BK.InstallSymlinkData('d.txt', 'share/lnk', 'share', '', tag=t))      # as generate_symlink_install builds it: name = install_dir/name
                 if selected(t): want['usr/share/lnk'] = 'link'
+            p, t = ent('absolute symlink')
+            if p:
+                d.symlinks.append(BK.InstallSymlinkData('d.txt', os.path.join(absdir, 'abslnk'), absdir, '', tag=t))      # install_symlink(install_dir : '<absolute>'): re-rooted under DESTDIR like every absolute destination
+                if selected(t): want[os.path.relpath(os.path.join(absdir, 'abslnk'), '/')] = 'link'
             p, t = ent('subdir')
             if p:
                 d.install_subdirs.append(BK.SubdirInstallData(os.path.join(src, 'tree'), os.path.join(prefix, 'share/tree'), '{datadir}/tree', FM(), (set(), set()), '', tag=t))
@@ -640,7 +644,7 @@ def obligations(tier):
     out.append(Obligation('install-targets-world', ob_install_targets_world(), dict(real='Installer.do_install -> install_targets -> do_copyfile / do_copydir / set_mode / DirMaker / log, scripts.uninstall on a scratch directory',
                           targets='up to 3 in sequence: executable file | plain file | DIRECTORY output | optional missing output | none', install_mode='none | rw-r--r-- | rwxr-x---', install_umask='022 | 077 | 002'),
                           labels=('installed', 'directory-among-others'), optional_labels=('nothing',), max_paths=2000000))
-    out.append(Obligation('install-world', ob_install_world(), dict(real='Installer.do_install, DirMaker, append_to_log, scripts.uninstall.do_uninstall on a scratch directory', entries='data (relative), data (absolute), header, emptydir, symlink, subdir: each declared or not, tag runtime | devel', tags='none | runtime | devel', dry_run='both', twice='both', destdir='with a space'), labels=('installed', 'dry-run', 'twice'), optional_labels=('nothing-selected',), max_paths=2000000))
+    out.append(Obligation('install-world', ob_install_world(), dict(real='Installer.do_install, DirMaker, append_to_log, scripts.uninstall.do_uninstall on a scratch directory', entries='data (relative), data (absolute), header, emptydir, symlink (relative and ABSOLUTE install_dir), subdir: each declared or not, tag runtime | devel', tags='none | runtime | devel', dry_run='both', twice='both', destdir='with a space'), labels=('installed', 'dry-run', 'twice'), optional_labels=('nothing-selected',), max_paths=2000000))
     out.append(Obligation('copydir-world', ob_copydir_world(), dict(tree='directories a, b, c and a nested a/b (each empty or with one file) + a top-level file', exclude_directories='symbolic subset of the relative paths a, b, c, a/b', exclude_files='symbolic subset'), labels=('done',)))
     out.append(Obligation('copyfile-world', ob_copyfile_world(), dict(destination='absent | file | directory', source='file | live symlink | dangling symlink | absent', dry_run='symbolic', destination_dir='exists or not'),
                           labels=('installed', 'dry-run', 'refused')))
